@@ -327,6 +327,27 @@ class SxReader:
     def getbuffer(self):
         return self.b
 
+    def write(self, data):
+        """io.BytesIO.write: overwrite / extend at the current position (zero fill when the position is past the end)"""
+        if isinstance(data, SxBytes):
+            d = list(data.bs)
+        elif isinstance(data, (bytes, bytearray, memoryview)):
+            d = list(bytes(data))
+        else:
+            raise TypeError("a bytes-like object is required, not '%s'" % type(data).__name__)
+        cur = list(self.b.bs) if isinstance(self.b, SxBytes) else list(self.b)
+        if self.pos > len(cur):
+            cur.extend([0] * (self.pos - len(cur)))
+        cur[self.pos:self.pos + len(d)] = d
+        self.b = _mkbytes(cur)
+        self.pos += len(d)
+        return len(d)
+
+    def truncate(self, size=None):
+        size = self.pos if size is None else size
+        self.b = self.b[:size]
+        return size
+
     def close(self):
         pass
 
@@ -338,7 +359,10 @@ class SxReader:
 
 
 def sx_bytesio(b=b""):
-    return SxReader(b) if isinstance(b, SxBytes) else io.BytesIO(b)
+    # an empty stream is a writer in the making: it may be handed symbolic bytes later, which a native BytesIO cannot hold
+    if isinstance(b, SxBytes) or (isinstance(b, (bytes, bytearray)) and len(b) == 0):
+        return SxReader(b if isinstance(b, SxBytes) else b"")
+    return io.BytesIO(b)
 
 
 def sx_divmod(a, b):
